@@ -156,6 +156,32 @@ def clause1_close(ctx, P, cg):
                "%s is answered with close status %s, expected %d" % (label, bad[1] if bad else "?", code) if bad else
                ("no path recognised for: " + label if n == 0 else "%s -> %d on %d path(s)" % (label, code, n)),
                witness=bad[0].witness() if bad else None)
+    # the converse: a frame that goes on being processed (no close on the path) has been LOOKED AT - the path carries the test
+    # that rules the offence out.  A test that is skipped for one kind of frame (control frames, say) lets that kind through.
+    def rsv_zero(v):
+        return has(v, lambda a, p: _bf_atom(P, a, "rsv") is not None and _eff(_bf_atom(P, a, "rsv")[0], p) == "eq" and _bf_atom(P, a, "rsv")[1] == 0)
+
+    def ext_accepted(v):
+        return has(v, lambda a, p: a[0] == "truth" and Q.mentions(a[1], lambda x: x[0] == "field" and x[3] == "accepted") and p)
+
+    def is_data(v):
+        return has(v, lambda a, p: _bf_atom(P, a, "opcode") is not None and _eff(_bf_atom(P, a, "opcode")[0], p) in ("slt", "ult") and _bf_atom(P, a, "opcode")[1] == 8)
+
+    def fin_set(v):
+        return has(v, lambda a, p: _bf_atom(P, a, "fin") is not None and _eff(_bf_atom(P, a, "fin")[0], p) == "ne" and _bf_atom(P, a, "fin")[1] == 0)
+    surv = [v for v in views if not any(True for _ in v.calls("handle_error")) and v.ret_const() != WS_CLOSED]
+    b1 = next((v for v in surv if not rsv_zero(v) and not ext_accepted(v)), None)
+    ctx.ob("C12.1 R-GATE", hf, "processed-frame-has-no-reserved-bits", b1 is None and len(surv) > 0,
+           "a frame is processed on a path that neither found its RSV bits zero nor the compression extension negotiated: reserved bits "
+           "without an extension do not end the connection with 1002 for this kind of frame", witness=b1.witness() if b1 else None)
+    b2 = next((v for v in surv if not rsv_zero(v) and not is_data(v)), None)
+    ctx.ob("C12.1 R-GATE", hf, "processed-frame-with-rsv-is-a-data-frame", b2 is None and len(surv) > 0,
+           "a frame with a reserved bit set is processed on a path that has not established that it is a data frame: a 'compressed' "
+           "control frame is not refused", witness=b2.witness() if b2 else None)
+    b3 = next((v for v in surv if not fin_set(v) and not is_data(v)), None)
+    ctx.ob("C12.1 R-GATE", hf, "processed-control-frame-is-final", b3 is None and len(surv) > 0,
+           "a frame is processed on a path that established neither FIN=1 nor a data opcode: a fragmented control frame is not refused",
+           witness=b3.witness() if b3 else None)
     gp = P.fn("websocket.c:ws_get_payload")
     n = 0
     bad = None
@@ -254,11 +280,13 @@ def clause3_server_frames(ctx, P):
     views = Q.path_views(ctx, P, sf)
     bad = None
     seen = set()
+    measured = {}
     for v in views:
         lt126 = lt64k = None
         odd = None
         for (a, p) in v.atoms:
             if a[0] == "cmp" and a[1] in ("ult", "ule", "ugt", "uge") and a[3][0] == "const" and a[2][0] in ("phi", "param") and a[3][1] > 100:
+                measured.setdefault(a[2], v)
                 # normalise to 'value < K'
                 pred, k = a[1], a[3][1]
                 if pred == "ule":
@@ -304,6 +332,15 @@ def clause3_server_frames(ctx, P):
             bad = (v, "length >= 65536 must use marker 127")
     ctx.ob("C12.3 R-BOUND", sf, "length-encoding", bad is None and len(seen) >= 3, bad[1] if bad else
            "minimal length encoding on all paths (%s)" % sorted(str(s) for s in seen), witness=bad[0].witness() if bad else None)
+    # one length decides the form and is the length announced: the thresholds all measure the same value, and that value is what
+    # goes into the length field (with compression the deflated length, not the length of the plain message)
+    be = sf.calls(("jet_htobe16", "htobe16", "__bswap_16", "jet_htobe64", "htobe64", "__bswap_64"))
+    same = len(measured) == 1
+    announced = same and all(Q.mentions(P.term(sf, c.a[0]), lambda x: x == next(iter(measured))) for c in be)
+    ctx.ob("C12.3 R-PAIR", sf, "one-length-decides-form-and-is-announced", same and announced and len(be) >= 2,
+           "send_frame chooses the length form by %s but announces %s: a frame whose two lengths fall on different sides of a "
+           "threshold (a message that deflate expands beyond 65535 bytes) gets a header that does not describe the bytes that follow" %
+           (" and ".join(sorted(fmt_term(t) for t in measured)), ", ".join(sorted({fmt_term(P.term(sf, c.a[0]))[:40] for c in be}))))
     be16 = sf.calls(("jet_htobe16", "htobe16", "__bswap_16"))
     be64 = sf.calls(("jet_htobe64", "htobe64", "__bswap_64"))
     okx = True
@@ -404,6 +441,23 @@ def clause5_handshake(ctx, P, cg):
             maj_gt1 = v.has_atom(lambda a, p: a[0] == "cmp" and (Q.bitfield_of(P, a[2]) or ("", ""))[1] == "http_major" or Q.mentions(a[2] if a[0] == "cmp" else a, lambda x: x[0] == "field" and x[3] == "http_major"))
             okh = okh and maj_gt1
     ctx.ob("C12.5 R-GATE", hv, "http>=1.1", okh, "HTTP version acceptance does not depend on http_major/http_minor")
+    # the function is a finite table over (major, minor) as far as it can tell them apart: evaluate it on representatives
+    from ..core.feval import FEval
+    try:
+        ev = FEval(P, hv, "struct.http_parser", 0)
+        fmaj, fmin = P.field_index("struct.http_parser", "http_major"), P.field_index("struct.http_parser", "http_minor")
+        badv = []
+        for major in (0, 1, 2, 3):
+            for minor in (0, 1, 2, 9):
+                r, _ = ev.run({fmaj: major, fmin: minor}, {})
+                acc = (r & 0xFFFFFFFF) == 0
+                if acc != ((major, minor) >= (1, 1)):
+                    badv.append("%d.%d %s" % (major, minor, "accepted" if acc else "refused"))
+    except AnalysisBroken as e:
+        raise AnalysisBroken("check_http_version is not evaluable as a table over (major, minor): %s" % e)
+    ctx.ob("C12.5 R-TABLE", hv, "http-version-table", not badv,
+           "check_http_version decides HTTP %s: an upgrade needs HTTP/1.1 or later (RFC 6455 4.1), a request line without a version "
+           "(HTTP/0.9) or HTTP/1.0 is not a valid upgrade and must be answered with an error" % ", ".join(badv[:4]))
     # required headers recorded before 101: the 101 site (or the digest computation) must be control dependent on state
     # that only the success path of that header's value callback writes (RFC 6455 4.2.1: key and version are required)
     hvf = P.fn("websocket.c:websocket_upgrade_on_header_value")
@@ -411,6 +465,7 @@ def clause5_handshake(ctx, P, cg):
     if len(sw) != 1:
         raise AnalysisBroken("websocket_upgrade_on_header_value: header dispatch switch not found")
     sw = sw[0]
+    seen_state = {}
     for hname, what, checker in (("HEADER_SEC_WEBSOCKET_KEY", "key", "save_websocket_key"),
                                  ("HEADER_SEC_WEBSOCKET_VERSION", "version", "check_websocket_version")):
         hval = Q.enum(P, hname)
@@ -434,11 +489,30 @@ def clause5_handshake(ctx, P, cg):
             for (atom, pol) in Q.guards_of(P, f, site.block):
                 if Q.mentions(atom, lambda x: x[0] == "field" and x[2] == "struct.websocket" and x[3] in state):
                     dep = True
+        seen_state[what] = (state, tgt[0])
         ctx.ob("C12.5 R-GATE", hc, "101:%s-seen" % what, dep and guarded,
                ("nothing records that a valid Sec-WebSocket-%s header was received (state written only when %s() succeeded, tested before "
                 "the 101): a request without that header is upgraded (RFC 6455 4.2.1 requires it)" % (what.capitalize(), checker))
                if not (dep and guarded) else "101 depends on %s state %s" % (what, sorted(state)))
-    ctx.floor("C12.5 R-GATE", 7)
+    # each required header has a record of its own: a record both cases write in the same way (one counter, one flag) cannot
+    # tell "key and version" from "version twice"
+    (ks, kb), (vs, vb) = seen_state["key"], seen_state["version"]
+
+    def stored(blk, fld):
+        out = []
+        for i in hvf.all_insts():
+            if i.op == "store" and hvf.dominates(blk, i.block):
+                t = P.term(hvf, i.a[1])
+                if t[0] == "field" and t[2] == "struct.websocket" and t[3] == fld:
+                    out.append(P.term(hvf, i.a[0]))
+        return out
+    own_k, own_v = ks - vs, vs - ks
+    shared_ok = any(stored(kb, fld) and stored(vb, fld) and not any(x in stored(vb, fld) for x in stored(kb, fld)) for fld in ks & vs)
+    ctx.ob("C12.5 R-GATE", hc, "101:each-required-header-has-its-own-record", (own_k and own_v) or shared_ok,
+           "the Sec-WebSocket-Key case and the Sec-WebSocket-Version case record their header in the same way in the same member (%s): "
+           "a request that repeats one of the two headers and leaves the other out is upgraded (RFC 6455 4.2.1 requires both)" %
+           ", ".join(sorted(ks & vs)))
+    ctx.floor("C12.5 R-GATE", 8)
 
 
 def clause7_scanners(ctx, P):
@@ -567,6 +641,40 @@ def clause9_misc(ctx, P, cg):
            "spells Sec-Websocket-Key is refused" % (P.srcname_of(wrong[0].callee) if wrong else "?", wrong[0].loc if wrong else "?"))
 
 
+# parameter names of permessage-deflate (RFC 7692 7.1): extension parameters are matched as written by every implementation;
+# they are not among the tokens RFC 6455 4.2.1 declares case-insensitive
+CASE_SENSITIVE_TOKENS = ("client_max_window_bits", "server_max_window_bits", "client_no_context_takeover", "server_no_context_takeover")
+
+
+def clause10_header_values(ctx, P, cg):
+    """header VALUES: the tokens RFC 6455 4.2.1 compares without regard to case (Upgrade: websocket, Connection: upgrade) are
+    left to http_parser; the value callback itself compares bytes only against texts without letters ("13"), against the
+    configured sub-protocol / extension names and extension parameters handed in by the caller.  A byte-wise comparison of a
+    header value against a literal containing letters refuses the spellings the RFC allows."""
+    hv = P.fn("websocket.c:websocket_upgrade_on_header_value")
+    BYTEWISE = ("memcmp", "strncmp", "strcmp", "bcmp")
+    wrong = []
+    nlit = 0
+    for n in sorted(cg.reach(hv.name)):
+        g = P.functions.get(n)
+        if g is None or g.base != "websocket.c":
+            continue
+        for c in g.all_insts():
+            if c.op != "call" or not c.callee or P.srcname_of(c.callee) not in BYTEWISE:
+                continue
+            for a in c.a[:2]:
+                t = P.strip(g, P.term(g, a))
+                if t[0] == "str":
+                    txt = t[1]
+                    nlit += 1
+                    if any(ch.isalpha() for ch in txt) and txt not in CASE_SENSITIVE_TOKENS:
+                        wrong.append((g, c, txt))
+    ctx.ob("C12.5 R-SIB", hv, "header-value-tokens-not-compared-bytewise", not wrong and nlit >= 1,
+           "%s compares a header value byte-wise with \"%s\" at %s: the tokens of the upgrade headers are case-insensitive (RFC 6455 4.2.1), "
+           "a client that spells it differently is refused although its upgrade is valid" %
+           (wrong[0][0].srcname, wrong[0][2], wrong[0][1].loc) if wrong else "no literal comparison found in the header value callback (the version literal \"13\" is expected)")
+
+
 def clause8_frame_flags(ctx, P, cg):
     """the flags of a frame header (fin, rsv, opcode, mask) are rewritten for EVERY frame: a flag that is only ever set
     keeps the value of an earlier frame (e.g. 'masked'), and the checks on it stop working from the second frame on"""
@@ -615,3 +723,4 @@ def run(ctx):
         clause8_status_codes(ctx, P)
         clause8_frame_flags(ctx, P, cg)
         clause9_misc(ctx, P, cg)
+        clause10_header_values(ctx, P, cg)
